@@ -7,6 +7,7 @@
      P <r> <a.b.c.d> <asn>    Peer Up for router r
      L                        GET <api>
      I <r> <f>                GET <api><f> answered by router r's info endpoint
+     Q <n> <v> <n> <v> ..     GET <api>?n=v&n=v.. (decoded query pairs as fields) answered by the router list
      M                        GET /metrics (router labels)
      W <f>                    label writer probe
    field f: u<cp.cp...> (valid text) or b<hexbytes>:<cp.cp...> (bytes : their lossy decoding)
@@ -14,6 +15,7 @@
    (raw interpolation, byte slicing) and the observation is `model ||| spec`. *)
 open Conv
 open EscapeModel
+open ResponseModel
 
 let legacy = match Sys.getenv_opt "C19_LEGACY" with Some "1" -> true | _ -> false
 
@@ -144,10 +146,10 @@ let run_case (line : string) : string =
          | None -> ())
     | ["L"] ->
         let rs = Stdlib.List.map to_router !routers in
-        let s = show_page "L200" (list_page !api rs) (list_needles !routers) in
+        let s = show_page "L200:html" (list_page !api rs) (list_needles !routers) in
         if legacy then
           (match list_page_legacy !api rs with
-           | Some t -> emit2 (show_page "L200" t (list_needles !routers)) s
+           | Some t -> emit2 (show_page "L200:html" t (list_needles !routers)) s
            | None -> emit2 "Lpanic" s)
         else emit s
     | ["I"; k; f] ->
@@ -155,11 +157,34 @@ let run_case (line : string) : string =
         let r = to_router r0 in
         let req = !api @ str_of (field f) in
         let s = match info_request !api !tpl req r with
-          | Some t -> r0.metered <- true; show_page "I200" t (info_needles r) | None -> "I-" in
+          | Some t -> r0.metered <- true; show_page "I200:html" t (info_needles r) | None -> "I-" in
         if legacy then
           emit2 (match info_request_legacy !api !tpl req r with
-                 | Some t -> show_page "I200" t (info_needles r) | None -> "I-") s
+                 | Some t -> show_page "I200:html" t (info_needles r) | None -> "I-") s
         else emit s
+    | "Q" :: kv ->
+        let rec pairs = function
+          | n :: v :: t -> (str_of (field n), str_of (field v)) :: pairs t
+          | [] -> []
+          | _ -> failwith "Q: odd number of fields" in
+        let params = pairs kv in
+        let rs = Stdlib.List.map to_router !routers in
+        (match list_response !api rs !api params with
+         | None -> emit "Q-"
+         | Some r ->
+             let st = string_of_int (int_of_n r.rs_status) in
+             let needles = Stdlib.List.map snd (reflected r) in
+             let ct_name = (match r.rs_ctype with CtHtml -> "html" | CtPlain -> "plain" | CtAbsent -> "none" | CtOther -> "other") in
+             (match r.rs_ctype with
+              | _ when st = "200" ->
+                  emit (show_page ("Q200:" ^ ct_name) (untag r.rs_body) (list_needles !routers))
+              | ct ->
+                  (* what the property accepts: text/plain, or markup in which the reflected text is escaped *)
+                  let esc = untag (escape_reflected r.rs_body) in
+                  let markup = "markup[" ^ chunk_str (tokenise (render esc)) ^ "]" in
+                  let plain_ok = (match ct with CtPlain -> true | _ -> false) in
+                  let tok = if plain_ok then "Q" ^ st ^ ":<plain|" ^ markup ^ ">" else "Q" ^ st ^ ":" ^ markup in
+                  emit (tok ^ " " ^ bits (Stdlib.List.map (fun v -> contains v (body_text r)) needles))))
     | ["M"] ->
         let labels = Stdlib.List.map (fun r -> enc (ints_of (format_source_id !tpl [] (n_of_int r.id))))
                        (Stdlib.List.filter (fun r -> r.metered) !routers) in
